@@ -41,13 +41,14 @@ ASSUMPTIONS = [
 ]
 BOUNDS = {"quick": {"depth_default": 4, "depth_dev": 3}, "thorough": {"depth_default": 5, "depth_dev": 4}}
 
-EVENTS = ("C0", "C1", "C2", "P1", "P1e", "P2", "P3", "Uverb", "Uuri", "Rprefix")
+EVENTS = ("C0", "C1", "C2", "C6", "P1", "P1e", "P2", "P3", "Uverb", "Uuri", "Rprefix")
 VARIANTS = ("rsa", "aes_rand", "aes_rand+rsa", "aes+hmac", "aes-noverify", "rsa/first-packet-only")
 
 GET_PROGS = {
     "default": RC.DEFAULT_GET,
     "netbios-param": [("BUILD", 0), ("NETBIOS", None), ("PREPEND", b"SESSION="), ("PARAMETER", b"q")],
     "b64url-uri": [("BUILD", 0), ("BASE64URL", None), ("URI_APPEND", None)],
+    "b64-uri": [("BUILD", 0), ("BASE64", None), ("URI_APPEND", None)],  # standard alphabet: '+', '/' and '=' inside the path
     "mask-b64url-header": [("_HEADER", b"Accept: */*"), ("BUILD", 0), ("MASK", None), ("BASE64URL", None), ("PREPEND", b"sid="), ("APPEND", b";x"), ("HEADER", b"Cookie")],
     "netbiosu-static": [("_HEADER", b"X-A: b"), ("_PARAMETER", b"k=v"), ("_HOSTHEADER", b"Host: cdn.example"), ("BUILD", 0), ("NETBIOSU", None), ("HEADER", b"X-Session")],
     "b64-param": [("BUILD", 0), ("BASE64", None), ("PARAMETER", b"data")],
@@ -91,6 +92,8 @@ def config_menu():
     m.append(("combo:same-uri-different-verbs", {"domains": b"h.example,/api,h.example,/news", "submit_uri": b"/api", "verb_get": b"GET", "verb_post": b"POST"}))
     m.append(("combo:same-uri-different-verbs-2", {"domains": b"h.example,/news,h.example,/api", "submit_uri": b"/api", "verb_get": b"GET", "verb_post": b"PUT"}))
     m.append(("combo:post-uri-append+submit-prefix", {"post": POST_PROGS["netbios-uri/b64-body"], "domains": b"h.example,/s", "submit_uri": b"/s/ubmit", "verb_get": b"GET", "verb_post": b"POST"}))
+    # callbacks sent with the GET verb, their output in the path in the standard base64 alphabet
+    m.append(("combo:post-get-verb+b64-uri-output", {"post": [("BUILD", 0), ("PARAMETER", b"id"), ("BUILD", 1), ("BASE64", None), ("URI_APPEND", None)], "verb_post": b"GET", "submit_uri": b"/submit.php"}))
     return m
 
 
@@ -269,9 +272,11 @@ class Session:
         self.seams.__exit__()
 
     def event(self, ev):
-        if ev in ("C0", "C1", "C2"):
-            self.pending_task = {"C0": None, "C1": (32, b""), "C2": (53, bytes(lcg(1000, self.seed + 3)))}[ev]
-            expected = self.pending_task
+        if ev in ("C0", "C1", "C2", "C6"):
+            # C6: command id 6 (COMMAND_NOOP alias COMMAND_KEYLOG_START) - the client's get_task() skips it, the
+            # traffic decoder must still report the packet that was sent
+            self.pending_task = {"C0": None, "C1": (32, b""), "C2": (53, bytes(lcg(1000, self.seed + 3))), "C6": (6, b"six!")}[ev]
+            expected = None if ev == "C6" else self.pending_task
             t = self.client.get_task()
             got = None if t is None else (t.command.value, bytes(t.data))
             if got != expected:
